@@ -249,6 +249,11 @@ CLAIMED["C17"] = dict(
     design="DESIGN.md §5 C17")
 NOT_YET = {}
 
+ENGINE_OF = {"C03": "lean+steptrace", "C04": "lean+steptrace+lifecycle", "C05": "lean+steptrace+seqdiff", "C07": "lean+lifecycle", "C09": "lean+steptrace+seqdiff",
+             "C10": "lean+steptrace", "C12": "lean+steptrace+seqdiff", "C13": "lean+steptrace", "C14": "lean+translator+seqdiff+steptrace", "C15": "lean+seqdiff+steptrace",
+             "C06": "lean+svclife", "C18": "lean+translator+seqdiff"}
+
+
 def main():
     props = [json.loads(l)["id"] for l in open(os.path.join(V, "properties.jsonl"))]
     checks = []
@@ -261,7 +266,7 @@ def main():
                 thorough_cmd=f"./check {pid} --tier thorough",
                 evidence_file=f"/verif/evidence/{pid}.json",
                 replay_cmd_template=f"./check {pid} --replay {{path}}",
-                engine="lean+steptrace" if pid in ("C03","C04","C05","C09","C10","C12","C13","C14") else "lean+seqdiff",
+                engine=ENGINE_OF.get(pid, "lean+seqdiff"),
                 level_claimed=dict(category=c["level"], text=c["text"], design_ref=c["design"]),
                 level_note=c["note"],
                 technique=c["technique"]))
@@ -274,8 +279,17 @@ def main():
                    enable="harness builds /repo crates by path; instrumented atomics are injected with a cargo `paths` override, no source change in /repo",
                    baseline_off_cmd="cd /repo && cargo nextest run --workspace --no-fail-fast --test-threads 8 --offline || cargo test --workspace --no-fail-fast --offline",
                    source_commits=[], add_only=True),
-        engines=[dict(name="lean", path="/verif/lean", serves_properties=sorted(CLAIMED), kind_free_text="Lean 4 models + theorems, axiom audit, compiled line-protocol driver"),
-                 dict(name="seqdiff", path="/verif/harness", serves_properties=sorted(CLAIMED), kind_free_text="Rust harness calling the real code in-process; differential vs the Lean driver")],
+        engines=[dict(name="lean", path="/verif/lean", serves_properties=sorted(CLAIMED), kind_free_text="Lean 4 models + theorems (lake build of Iox2/Props/<id>*.lean), axiom audit, compiled line-protocol driver iox2driver"),
+                 dict(name="seqdiff", path="/verif/harness", serves_properties=["C01", "C02", "C05", "C08", "C09", "C11", "C12", "C14", "C15", "C16", "C17", "C18", "C19", "C20"],
+                      kind_free_text="Rust harness calling the real code in-process, one operation per line; differential vs the Lean driver, shrinking, oracles on the implementation alone"),
+                 dict(name="steptrace", path="/verif/harness/src/trace", serves_properties=["C03", "C04", "C05", "C09", "C10", "C12", "C13", "C14", "C15"],
+                      kind_free_text="instrumented drop-in of iceoryx2-pal-concurrency-sync regenerated from /repo (cargo paths override), baton scheduler: random and bounded-preemption exhaustive schedules, blocking, alias mappings, crash fuse; atomic-step traces compared with the L2 models"),
+                 dict(name="lifecycle", path="/verif/harness/src/life", serves_properties=["C04", "C07"],
+                      kind_free_text="process-level scenarios under strace: system-call step-list equality, kill / stop injection at every system call, survivor verdict and leftover files vs the Lifecycle model"),
+                 dict(name="svclife", path="/verif/harness/src/svc", serves_properties=["C06"],
+                      kind_free_text="service create/open/drop histories with several nodes, requirement matrices, strace step lists, multi-process stress"),
+                 dict(name="translators", path="/verif/extract", serves_properties=["C14", "C18"] + sorted(ENGINE_OF),
+                      kind_free_text="dropin_gen.py (instrumentation), reloc_layout.py (C14 field table -> Iox2/Gen/RelocLayout.lean), ffi_errors.py (C18 error tables -> Iox2/Gen/FfiErrors.lean); all fail closed")],
         checks=checks,
         notes="fix: commits in /repo (genuine defects found by these checks) are listed in known_findings.json with status fixed.",
         not_applicable=na)
